@@ -5,7 +5,8 @@ VERIF = os.path.dirname(os.path.dirname(os.path.abspath(__file__)))
 REPO = os.environ.get('VERIF_REPO', '/repo')
 binp = os.path.join(VERIF, '.work', 'bin', 'mapranges')
 env = dict(os.environ, GOFLAGS='-mod=mod', GOPROXY='off', GOSUMDB='off', GOTOOLCHAIN='local')
-if not os.path.exists(binp):
+src = os.path.join(VERIF, 'tools', 'gotools', 'mapranges', 'main.go')
+if not os.path.exists(binp) or os.path.getmtime(binp) < os.path.getmtime(src):
     subprocess.run(['go', 'build', '-o', binp, './mapranges'], cwd=os.path.join(VERIF, 'tools', 'gotools'), env=env, check=True)
 p = subprocess.run([binp, os.path.join(REPO, 'lib')], capture_output=True, text=True, env=env)
 if p.returncode != 0:
@@ -15,12 +16,12 @@ def q(s): return '"' + s.replace('"', '""') + '"'
 lines = ['(** GENERATED on every run by tools/gen_mapranges.py from the Go source: every `range` over a map-typed',
          '    expression in the non-test code of lib, and every call to time.* or to package-level math/rand functions. *)',
          'From Coq Require Import List String.', 'Import ListNotations.', 'Local Open Scope string_scope.', '',
-         '(* key = file:function#ordinal ; expr = the ranged expression *)',
-         'Definition map_range_sites : list (string * string) := [']
+         '(* key = file:function#ordinal ; expr = the ranged expression ; fingerprints of the range statement and of the function body *)',
+         'Definition map_range_sites : list (string * string * (string * string)) := [']
 items = []
 for s in d['sites']:
     key = '%s:%s#%d' % (s['file'].replace('lib/', '', 1), s['func'], s['ordinal'])
-    items.append('  (%s, %s)' % (q(key), q(s['expr'])))
+    items.append('  (%s, %s, (%s, %s))' % (q(key), q(s['expr']), q(s['loopFP']), q(s['funcFP'])))
 lines.append(';\n'.join(items))
 lines.append('].')
 lines.append('')
